@@ -1114,6 +1114,14 @@ def oracle_c16(plan, world, cl, obs, mon):
         if wr:
             viol("out_of_order_call_sent_requests", c, requests=wr)
 
+    # a commit / abort that returned normally has ended the transaction at the coordinator
+    # as well: otherwise the "new" transaction that follows is the old one continued
+    for c in calls:
+        if c["op"] in ("commit", "abort", "ctx_ok", "ctx_exc") and c["outcome"] == "ok" \
+                and c["model_before"]["state"] in ("IN_TXN", "ABORTABLE") \
+                and c["coord_after"] is not None and c["coord_after"][1] == "Ongoing":
+            viol("transaction_still_open_at_coordinator_after_end_call", c,
+                 coordinator=repr(c["coord_after"]))
     hard = fc in ("abortable", "fatal") and fault_seq is not None
     latent = hard  # the error is known to the producer but no call has surfaced it yet
     for c in calls:
